@@ -119,8 +119,7 @@ def work(task):
         full = member_smiles(prefix, blocks, [2] * len(blocks), suffix)
         outs.append(full.replace("N", "S", 1) if "N" in full else None)                       # a foreign atom
         # truncated / skipped members: generated from smaller ensembles with the same units
-        pre_only = Molecule(big_text(prefix, blocks[:1], "[H]"))
-        outs.append(member_smiles(prefix, blocks[:1], [3], "[H]") if suffix != "[H]" else None)   # later blocks and the suffix missing
+        outs.append(member_smiles(prefix, blocks[:1], [3], ""))    # chain stops at a bare repeat unit: later blocks and the suffix are missing
         if len(blocks) > 1:
             outs.append(member_smiles(prefix, blocks[:1], [2], suffix))                         # a block skipped
         outs.append(Chem.MolToSmiles(Chem.MolFromSmiles(("" if prefix == "[H]" else prefix) + ("" if suffix == "[H]" else suffix))) if prefix != "[H]" or suffix != "[H]" else None)
@@ -135,7 +134,7 @@ def work(task):
                 continue
             evals += 1
             if abs(got) > 1e-12:
-                tag = "[suffix-replaced-by-H]" if smi == outs[1] else ""
+                tag = "[only-suffix-missing]" if smi == outs[1] and len(blocks) == 1 else ""
                 viol.append({"key": K + "[zero-outside]" + tag, "clause": "a molecule outside the ensemble has probability 0", "detail": {"smiles": smi, "got": got}, "input": inp})
     return _finish(evals, distinct, viol, samples)
 
